@@ -203,6 +203,16 @@ func (c *cctx) evalIdent(id *ast.Ident) cval {
 				}
 			}
 		}
+		// a loop let that this path never reached: unconstrained
+		if x.c != nil {
+			for _, ls := range x.c.Loops {
+				for _, l := range ls.Lets {
+					if l.Name == name {
+						return c.mathVal(x.freshTerm("unbound_"+name, x.ar.mathSort()))
+					}
+				}
+			}
+		}
 		// a local of the unit that is not bound on this path: unconstrained
 		if x.pkg != nil && x.unit != nil && x.unit.Decl != nil {
 			for idn, obj := range x.info.Defs {
@@ -641,6 +651,7 @@ func (x *Exec) havocGhostAt(st *State, g string, b cbind) {
 	}
 	s := x.ghostSort(decl.Type)
 	key := "ghost:" + g
+	x.noteWrite(key, id.T)
 	arr := x.heapGet(st, key, ArrSort(IntSort, s))
 	st.heap[key] = Store(arr, id.T, x.freshTerm("g_"+g, s))
 }
